@@ -24,6 +24,35 @@ func loadFromYAMLFile(path string, data interface{}) error {
 	return decoder.Decode(data)
 }
 
+// writeFileAtomic writes data to a temporary file in dir and renames it to path.  The temporary name does not depend
+// on path (a login close to the file name length limit still works) and does not match the *.yaml account glob.
+func writeFileAtomic(dir, path string, data []byte) error {
+	f, err := os.CreateTemp(dir, ".tmp-account-*")
+	if err != nil {
+		return err
+	}
+	tmpPath := f.Name()
+	if _, err := f.Write(data); err != nil {
+		f.Close()
+		os.Remove(tmpPath)
+		return err
+	}
+	if err := f.Chmod(0644); err != nil {
+		f.Close()
+		os.Remove(tmpPath)
+		return err
+	}
+	if err := f.Close(); err != nil {
+		os.Remove(tmpPath)
+		return err
+	}
+	if err := os.Rename(tmpPath, path); err != nil {
+		os.Remove(tmpPath)
+		return err
+	}
+	return nil
+}
+
 type YAMLAccountManager struct {
 	accounts   map[string]hotline.Account
 	accountDir string
@@ -88,11 +117,7 @@ func (am *YAMLAccountManager) Create(account hotline.Account) error {
 
 	// Write the complete account to a temporary file and rename it to its final name, so that a partially written
 	// account file is never visible under the final name.
-	tmpPath := accountPath + ".tmp"
-	if err := os.WriteFile(tmpPath, b, 0644); err != nil {
-		return fmt.Errorf("write account file: %w", err)
-	}
-	if err := os.Rename(tmpPath, accountPath); err != nil {
+	if err := writeFileAtomic(am.accountDir, accountPath, b); err != nil {
 		return fmt.Errorf("create account file: %w", err)
 	}
 
@@ -128,10 +153,7 @@ func (am *YAMLAccountManager) Update(account hotline.Account, newLogin string) e
 
 	// Replace the account file atomically: write a temporary file, then rename it over the final name.
 	accountPath := filepath.Join(am.accountDir, newLogin+".yaml")
-	if err := os.WriteFile(accountPath+".tmp", out, 0644); err != nil {
-		return fmt.Errorf("error writing account file: %w", err)
-	}
-	if err := os.Rename(accountPath+".tmp", accountPath); err != nil {
+	if err := writeFileAtomic(am.accountDir, accountPath, out); err != nil {
 		return fmt.Errorf("error writing account file: %w", err)
 	}
 
